@@ -182,6 +182,8 @@ def sln_adjoint(mat, inv=None, **kwargs):
     if inv is None:
         inv = utils.invert(mat)
 
+    kwargs.setdefault("like", mat)
+
     return sln_linear_action(
         lambda M: mat @ M @ inv,
         n, **kwargs
@@ -191,6 +193,8 @@ def gln_adjoint(mat, inv=None, **kwargs):
     n = mat.shape[-1]
     if inv is None:
         inv = utils.invert(mat)
+
+    kwargs.setdefault("like", mat)
 
     return linear_matrix_action(
         lambda M: mat @ M @ inv,
